@@ -34,7 +34,7 @@ META = {
                 note="extend from inside enter is outside the quantifier. Re-adding a self-removed still-running doer is not in the alphabet."),
     "C08": dict(cat="model_checking", eng="E3 op-sequence enumeration", ref="3 (C08)",
                 tech="exhaustive enumeration of all timer operation sequences up to a depth against a start/stop model",
-                text="All sequences (depth 5/7) of advance/rewind/start/restart on a real Tymer are compared float-exactly with a model written from the statement; all sequences (depth 6/8) of clock jumps/reads/starts on a real MonoTimer (retro True/False) are checked for monotone elapsed and sticky expired.",
+                text="All sequences (depth 5/7) of advance/rewind/start/restart on a real Tymer are compared float-exactly with a model written from the statement; all sequences (depth 6/8) of clock jumps/reads/starts on a real MonoTimer (retro True/False) are checked for monotone elapsed, sticky expired and remaining consistent with expired whatever the order in which the three are read.",
                 note="Fake clock installed as hio.help.timing.time; dyadic values keep MonoTimer arithmetic exact."),
     "C09": dict(cat="model_checking", eng="E1 over FakeNet", ref="3 (TCP group), 2 (FakeNet)",
                 tech="stateless deviation-bounded exploration of kernel answers (partial send/short read/would-block/TLS want) on real tcp Client/Server over an in-memory kernel model",
@@ -84,6 +84,22 @@ META = {
                 tech="complete enumeration of scripted server behaviours per queued request (immediate, delayed, fragmented, redirecting, closing) against the real http.Client",
                 text="1-2/3 queued requests, plain and TLS-flavoured client, reconnectable or not; every assignment of 6-7 server behaviours and 4 redirect codes; no request bytes while an earlier response is unfinished; at most one response entry per request in order with tag and redirect history; https->http refused without contacting the plain listener; exactly one entry per request when the connection stays usable.",
                 note="Liveness is not demanded through a connection the server closed unless the client is reconnectable on its original connector."),
+    "C21": dict(cat="fault_enumeration", eng="E1 full answer tree over scripted transport / fake datagram socket", ref="3 (memo group)",
+                tech="complete enumeration of the tree of transport answers (accept all / 0 / 1 / len-1 bytes, would-block, unreachable errnos) to the first 4/6 sends, real Memoer and udp PeerMemoer transmit servicing, per-destination ideal-sender oracle",
+                text="6 layouts of 2-3 grams to 1-2 destinations x {Memoer with scripted send, udp.PeerMemoer over a fake datagram socket} x {greedy service(), serviceAllOnce()}: every answer history of the first 4 (quick) / 6 (thorough) sends, then all-accepting sends to a horizon; every send must offer exactly the unsent rest of the oldest unfinished gram of its destination; at the horizon every gram was accepted in full or dropped by an unreachable answer and the buffers are empty. Plus each of the 10 unreachable errnos at each of the first 3 sends.",
+                note="Trusted: the fake datagram socket (sendto answers only). Scheduling between different destinations is not prescribed by the oracle."),
+    "C22": dict(cat="fault_enumeration", eng="E3 mutation enumeration", ref="3 (memo group)",
+                tech="exhaustive enumeration of all short datagrams, alphabet strings, every single-byte replacement and every truncation of valid signed/unsigned grams, and crafted gram sets with numbers at and beyond the count, against real Memoer/AuthMemoer receive servicing",
+                text="Receivers with authic False and True: all byte strings <= 2 bytes, all strings of length 3-4 over a 12-byte alphabet, all 255 replacements of every byte and every truncation of every gram of valid memos (4 zeroth codes x base64/base2 headers, 2 and 3 grams), crafted self-signed sets with count 0..3 and gram numbers up to 2^24-1: servicing must not raise; an authic receiver delivers only memos all of whose grams verify for the claimed signer and equal the original.",
+                note="A reference gram builder written from the wire format must reproduce rend() byte for byte (asserted every run). Fixed ed25519 seeds; counter-based memo ids."),
+    "C23": dict(cat="model_checking", eng="E2 BFS over real LMDB", ref="3 (store group)",
+                tech="explicit-state BFS over push/pull/extend/update/remove/clear/reopen/resync histories of the real Durq and Dusq on a real LMDB environment with a list / ordered-set model in lock step",
+                text="All histories to depth 5 (quick) / 7 (thorough) over values {A,B} in three dataclass flavours; states = (memory content, durable (ordinal, value) list, stale flag); after every operation the return value, list(q), len, count, the durable copy read straight through lmdb, sdb.get, cnt and stale are compared with the model; reopen must restore exactly the model's content.",
+                note="Crash points are orderly close/reopen between operations; torn LMDB pages are LMDB's guarantee. Sandbox under /dev/shm, removed afterwards."),
+    "C24": dict(cat="model_checking", eng="E2 BFS over real LMDB", ref="3 (store group)",
+                tech="explicit-state BFS over put/pin/add/pop/rem histories of the real Suber, IoSuber and IoSetSuber on a real LMDB environment with a dict / dict-of-lists / dict-of-ordered-sets model; every other key re-read after every operation",
+                text="Keys {a, ab, a.b, (a,b), a.0, a.<32 hex zeros>} (prefixes of each other, separator and ordinal-suffix shapes), values {x,y}: Suber over all keys to depth 4/6, IoSuber and IoSetSuber over all keys to depth 3/4 and over each of the 15 key pairs to depth 4/6; states deduplicated on the raw LMDB content; result, get, cnt, getFirst, getLast of the operated key equal the model and the same reads of every other key are unchanged.",
+                note="The ordinal-suffix key collision of the insertion-ordered stores is a recorded KNOWN-FINDING (14 keys); after a violation the model follows the store so one defect is not reported as a cascade."),
     "C26": dict(cat="exploration", eng="E3 full enumeration", ref="3 (C26)",
                 tech="exhaustive enumeration of small input domains against arithmetic written from the statement",
                 text="Every integer below 2^18/2^22 x lengths 1..6 plus power-of-64 boundaries; every Base64 string up to length 3/4; every byte string up to 2/3 bytes x admissible sextet counts.",
